@@ -325,6 +325,20 @@ def still_bad(P, binp, ops_list, workdir, want):
 
 def shrink(P, binp, case, workdir, want, budget_s=60):
     ops = case["ops"]
+    if hasattr(P, "shrink_candidates"):
+        # property-specific shrinking: P.shrink_candidates(ops) -> list of smaller ops terms
+        t0 = time.time()
+        best = case
+        while time.time() - t0 < budget_s:
+            cands = P.shrink_candidates(best["ops"])[:64]
+            if not cands:
+                break
+            flags, cs = still_bad(P, binp, cands, workdir, want)
+            hit = next((i for i, b in enumerate(flags) if b), None)
+            if hit is None or cs is None:
+                break
+            best = cs[hit]
+        return best
     if not isinstance(ops, list) or not getattr(P, "SHRINK", True):
         return case
     t0 = time.time()
